@@ -257,6 +257,10 @@ func (af *AdaptationField) stuffAF() {
 // delta is how much shifting needs to be done.
 // this function must be called before the field is marked as present.
 func (af *AdaptationField) resizeAF(start int, delta int) error {
+	if af.stuffingStart() > PacketSize {
+		// the fields announced by the flags and length bytes overrun the packet
+		return gots.ErrAdaptationFieldTooLarge
+	}
 	if delta > 0 { // shifting for growing
 		end := af.stuffingStart()
 		startRight := start + delta
@@ -549,6 +553,10 @@ func (af *AdaptationField) TransportPrivateData() ([]byte, error) {
 	if !hasTPD {
 		return nil, gots.ErrNoPrivateTransportData
 	}
+	if af.adaptationExtensionStart() > PacketSize {
+		// transport_private_data_length points past the end of the packet
+		return nil, gots.ErrAdaptationFieldTooLarge
+	}
 	return af[af.transportPrivateDataStart():af.adaptationExtensionStart()], nil
 }
 
@@ -617,6 +625,10 @@ func (af *AdaptationField) AdaptationFieldExtension() ([]byte, error) {
 	}
 	if !hasAFC {
 		return nil, gots.ErrNoAdaptationFieldExtension
+	}
+	if af.stuffingStart() > PacketSize {
+		// adaptation_field_extension_length points past the end of the packet
+		return nil, gots.ErrAdaptationFieldTooLarge
 	}
 	return af[af.adaptationExtensionStart():af.stuffingStart()], nil
 }
